@@ -196,9 +196,19 @@ def _lift_call_oracle(fn):
     signed = _arith(st.value, {"self.obj.signed_weights()": "ow", "self.constraints.signed_weights(lambda_vec)": "cw"})
     if "ow" not in signed or "cw" not in signed:
         _bad(f"signed weights {ast.unparse(st.value)!r} do not use both the objective's and the constraints' weights")
-    # 2. relabel (classification) / labels unchanged (regression)
-    st = stmts[1]
-    if not (isinstance(st, ast.If) and ast.unparse(st.test) == "isinstance(self.constraints, ClassificationMoment)"
+    # 2./3. between the signed weights and `np.unique`: the relabel branch, the abs and (after the abs) the
+    # normalisation -- the relabel branch and the weight statements are independent, so their relative order is free
+    end = [i for i, st in enumerate(stmts) if isinstance(st, ast.Assign) and isinstance(st.value, ast.Call)
+           and ast.unparse(st.value.func) == "np.unique"]
+    if len(end) != 1 or end[0] != 4:
+        _bad("expected exactly three statements between the signed weights and np.unique(<labels>)")
+    mid = stmts[1:4]
+    ifs = [st for st in mid if isinstance(st, ast.If)]
+    asg = [st for st in mid if isinstance(st, ast.Assign)]
+    if len(ifs) != 1 or len(asg) != 2:
+        _bad(f"relabel / reweight statements: {[ast.unparse(x)[:60] for x in mid]}")
+    st = ifs[0]
+    if not (ast.unparse(st.test) == "isinstance(self.constraints, ClassificationMoment)"
             and len(st.body) == 1 and len(st.orelse) == 1 and isinstance(st.body[0], ast.Assign)
             and isinstance(st.orelse[0], ast.Assign) and isinstance(st.body[0].targets[0], ast.Name)
             and ast.unparse(st.body[0].targets[0]) == ast.unparse(st.orelse[0].targets[0])):
@@ -207,14 +217,15 @@ def _lift_call_oracle(fn):
     label = _label_expr(st.body[0].value, w)
     if ast.unparse(st.orelse[0].value) != "self.constraints._y_as_series":
         _bad(f"regression labels {ast.unparse(st.orelse[0].value)!r}")
-    # 3. weights: abs, then normalisation
-    st = stmts[2]
-    if not (isinstance(st, ast.Assign) and isinstance(st.targets[0], ast.Name)):
+    st = asg[0]
+    if not isinstance(st.targets[0], ast.Name):
         _bad(f"weights {ast.unparse(st)!r}")
     wv = st.targets[0].id
+    if wv in (w, yv):
+        _bad(f"weights overwrite {wv}")
     absw = _abs_expr(st.value, w)
-    st = stmts[3]
-    if not (isinstance(st, ast.Assign) and isinstance(st.targets[0], ast.Name) and st.targets[0].id == wv):
+    st = asg[1]
+    if not (isinstance(st.targets[0], ast.Name) and st.targets[0].id == wv):
         _bad(f"normalisation {ast.unparse(st)!r}")
     norm = _arith(st.value, {"self.constraints.total_samples": "n", wv: "a", f"{wv}.sum()": "s"})
     if "a" not in norm:
